@@ -134,7 +134,9 @@ func (demuxer *Demuxer) Close() error {
 	}
 
 	demuxer.closed = true
-	demuxer.recvQueue.Signal()
+	// wake the worker through the queue: a bare Signal is lost when the worker is
+	// between its closed test and cond.Wait, and it would then wait forever
+	demuxer.recvQueue.Push(nil)
 	return nil
 }
 
